@@ -20,6 +20,7 @@ LocalMatches(L) ==
      /\ Len(o.ids) = Cardinality(AsSet(o.ids))            \* every event recorded once
      /\ AsSet(o.ids) = L[o.i].ids
      /\ o.nedits = L[o.i].nedits
+     /\ \A k \in DOMAIN o.ids : o.kinds[k] = KindOfId(tracker'[o.i], o.ids[k])   \* each event recorded as what it is (a comment as a comment ...)
      /\ o.title = CurTitle(L[o.i], tracker'[o.i])        \* the title the bug shows (named by the title event that announced it)
 
 TInit == Init /\ l = 1
